@@ -143,42 +143,69 @@ func (env *Env) lookupLocal(name string) (SV, bool) {
 	if fr == nil {
 		return SV{}, false
 	}
-	// loop-carried variables: phis at the current block carry the source name in Comment
-	if env.blk != nil {
-		for _, ins := range env.blk.Instrs {
+	target := env.blk
+	if target == nil {
+		// clauses evaluated at the exit: the block of the (last) return
+		for _, b := range fr.fn.Blocks {
+			if len(b.Instrs) > 0 {
+				if _, ok := b.Instrs[len(b.Instrs)-1].(*ssa.Return); ok && b != fr.fn.Recover {
+					target = b
+				}
+			}
+		}
+	}
+	// candidates: debug references to the variable and phis named after it; the current value at
+	// `target` is the candidate that dominates target and is dominated by every other such candidate
+	type cand struct {
+		blk    *ssa.BasicBlock
+		idx    int
+		val    ssa.Value
+		isAddr bool
+	}
+	var cs []cand
+	for _, d := range fr.dbg[name] {
+		cs = append(cs, cand{d.blk, d.idx, d.val, d.isAddr})
+	}
+	for _, b := range fr.fn.Blocks {
+		for i, ins := range b.Instrs {
 			p, ok := ins.(*ssa.Phi)
 			if !ok {
 				break
 			}
 			if p.Comment == name {
-				if v, ok := fr.vals[p]; ok {
-					return svOfVal(v, p.Type()), true
-				}
+				cs = append(cs, cand{b, i - 1000, p, false})
 			}
 		}
 	}
-	// debug references: the last binding of the source variable that dominates blk
-	refs := fr.dbg[name]
-	for k := len(refs) - 1; k >= 0; k-- {
-		d := refs[k]
-		if env.blk != nil && !d.blk.Dominates(env.blk) {
+	var best *cand
+	for i := range cs {
+		c := &cs[i]
+		if target != nil && !(c.blk == target || c.blk.Dominates(target)) {
 			continue
 		}
-		v, ok := fr.vals[d.val]
-		if !ok {
-			if _, isC := d.val.(*ssa.Const); isC {
-				v = env.x.val(fr, d.val)
-			} else {
+		if _, have := fr.vals[c.val]; !have {
+			if _, isC := c.val.(*ssa.Const); !isC {
 				continue
 			}
 		}
-		if d.isAddr {
-			pt := deref(d.val.Type())
-			return svOfVal(env.x.vc.load(env.st, env.x.vc.ls.of(pt), v[0].T, v[1].T), pt), true
+		if best == nil || (best.blk != c.blk && best.blk.Dominates(c.blk)) || (best.blk == c.blk && c.idx > best.idx) {
+			best = c
 		}
-		return svOfVal(v, d.val.Type()), true
 	}
-	return SV{}, false
+	if best == nil {
+		return SV{}, false
+	}
+	var v Val
+	if cv, isC := best.val.(*ssa.Const); isC {
+		v = env.x.constVal(cv)
+	} else {
+		v = fr.vals[best.val]
+	}
+	if best.isAddr {
+		pt := deref(best.val.Type())
+		return svOfVal(env.x.vc.load(env.st, env.x.vc.ls.of(pt), v[0].T, v[1].T), pt), true
+	}
+	return svOfVal(v, best.val.Type()), true
 }
 
 func (env *Env) eval(e ast.Expr) SV {
@@ -721,6 +748,22 @@ func (env *Env) callExpr(n *ast.CallExpr) SV {
 		k := env.argIndex(n.Args[0])
 		t := env.staticDynType(k)
 		return svInt(itoa(int64(x.eng.ioKind(t, fn.Name == "writer_kind"))))
+	case "callarg":
+		// callarg("callee#k", i): argument i of that call site (receiver first)
+		name, _ := strconv.Unquote(n.Args[0].(*ast.BasicLit).Value)
+		idx, _ := strconv.Atoi(n.Args[1].(*ast.BasicLit).Value)
+		want := 0
+		if h := strings.LastIndex(name, "#"); h >= 0 {
+			if k, err := strconv.Atoi(name[h+1:]); err == nil {
+				want, name = k, name[:h]
+			}
+		}
+		for _, c := range x.trace.calls {
+			if calleeMatch(name, c.Callee) && (want == 0 || c.Ord == want) && idx < len(c.Args) {
+				return svOfVal(c.Args[idx], c.ArgVals[idx].Type())
+			}
+		}
+		sfail("callarg: no call to %s", name)
 	case "callres":
 		name, _ := strconv.Unquote(n.Args[0].(*ast.BasicLit).Value)
 		if x.trace == nil {
